@@ -129,3 +129,8 @@ package xsurveyor
 //@   before call:delete#1 assert arg0 == p.s.pipes && held(s.Mutex)
 //@   before call:close#1 assert arg0 == p.closeQ
 //@   ensures called("delete")
+
+// ---- round 10: every pipe is offered the survey (a non-blocking send on its queue is reached) ----
+//@ func (*socket).SendMsg
+//@   loop 1 ensures called_since("loop1:head", "Clone") && sel("select#1") != -2
+//@   before select#1 assert selsends(p.sendQ) && held(s.Mutex)
